@@ -258,6 +258,11 @@ type World struct {
 	NWatchers int
 	// WatcherPos places the watcher extensions among the scripted extensions: 0 first, 1 last.
 	WatcherPos int
+	// ExtRepeat makes service::extensions list some ids more than once (nothing validates against that; the
+	// service is expected to collapse them: one instance, every status event delivered once per watcher):
+	// 0 none; 1 the first watcher twice, adjacent; 2 the first watcher twice, other extensions in between;
+	// 3 a non-watcher extension twice; 4 the first watcher three times; 5 every watcher twice and a non-watcher twice.
+	ExtRepeat int
 
 	seq      atomic.Int64
 	bg       sync.WaitGroup
@@ -447,10 +452,55 @@ func (w *World) Execute() (*Result, error) {
 		xcfg[id] = &cfg{}
 		wids = append(wids, id)
 	}
+	if w.ExtRepeat != 0 && len(exts) == 0 {
+		// something that is not a watcher, to repeat or to stand in between
+		id := component.MustNewIDWithName("sx", "plain")
+		xcfg[id] = &cfg{}
+		exts = append(exts, id)
+	}
+	other := component.ID{}
+	if len(exts) > 0 {
+		other = exts[len(exts)/2]
+	}
 	if w.WatcherPos == 0 {
 		exts = append(append([]component.ID{}, wids...), exts...)
 	} else {
 		exts = append(exts, wids...)
+	}
+	insertAfter := func(list []component.ID, id component.ID) []component.ID {
+		for i, x := range list {
+			if x == id {
+				out := append([]component.ID{}, list[:i+1]...)
+				out = append(out, id)
+				return append(out, list[i+1:]...)
+			}
+		}
+		return list
+	}
+	farEnd := func(list []component.ID, id component.ID) []component.ID {
+		if w.WatcherPos == 0 {
+			return append(list, id)
+		}
+		return append([]component.ID{id}, list...)
+	}
+	switch w.ExtRepeat {
+	case 1:
+		exts = insertAfter(exts, wids[0])
+	case 2:
+		exts = farEnd(exts, wids[0])
+	case 3:
+		if w.WatcherPos == 0 {
+			exts = append(exts, other)
+		} else {
+			exts = insertAfter(exts, other)
+		}
+	case 4:
+		exts = farEnd(insertAfter(exts, wids[0]), wids[0])
+	case 5:
+		for _, id := range wids {
+			exts = farEnd(exts, id)
+		}
+		exts = insertAfter(exts, other)
 	}
 
 	mk := func() component.Config { return &cfg{} }
@@ -526,7 +576,10 @@ func (w *World) Execute() (*Result, error) {
 		ExtensionsConfigs: xcfg,
 		ExtensionsFactories: map[component.Type]extension.Factory{
 			tExt: extension.NewFactory(tExt, mk, func(_ context.Context, s extension.Settings, _ component.Config) (extension.Extension, error) {
-				return w.byID[s.ID].memberFor(""), nil
+				if c := w.byID[s.ID]; c != nil {
+					return c.memberFor(""), nil
+				}
+				return plainComp(), nil
 			}, st),
 			tWatch: extension.NewFactory(tWatch, mk, func(_ context.Context, s extension.Settings, _ component.Config) (extension.Extension, error) {
 				for i, id := range wids {
